@@ -10,6 +10,6 @@ CONSTANTS
   TmpChoices <- QTmps
   ImgNs <- QImgNs
   Scales = {1, 95}
-INVARIANTS TypeOK LoopInv NoneMissed
+INVARIANTS TypeOK LoopInv NoneMissed ExactImpliesStatement
 PROPERTIES Refines
 CHECK_DEADLOCK FALSE
